@@ -22,6 +22,19 @@ class Prop(Bip32Prop):
             L = [1, 2, 1, 3, 1, 4][j % 6] if not T else rng.randrange(1, 7)
             path = [rng.choice([0, 1, H - 1, rng.randrange(0, H)]) for _ in range(L)]
             cases.append({"kind": "PubPriv", "start": st, "path": path})
+        # children whose public key has leading zero bytes in x (1 in 256 by chance): reached by choosing the PRF output
+        kz = [k for k in range(2, 4000) if pubkey_of_scalar(k)[1] == 0][:3]
+        for j, kstar in enumerate(kz):
+            st = self.start_prv(rng, self.rand_scalar(rng, "rand"), stored33=(j % 2 == 0))
+            path = [rng.randrange(0, H)] if j % 2 == 0 else [rng.randrange(0, H), 5]
+            stub = self.stub_for_last_step(st, path, rng, ki=kstar)
+            cases.append({"kind": "PubPriv", "start": st, "path": path, "stub": stub, "note": "child pubkey x has a leading zero byte"})
+            cases.append({"kind": "PubPriv", "start": st, "path": path + [1], "stub": stub, "note": "parent pubkey x has a leading zero byte"})
+        # children with tiny scalars / scalar n-1
+        for kstar in (1, 2, N - 1):
+            st = self.start_prv(rng, self.rand_scalar(rng, "rand"))
+            path = [rng.randrange(0, H)]
+            cases.append({"kind": "PubPriv", "start": st, "path": path, "stub": self.stub_for_last_step(st, path, rng, ki=kstar), "note": "ki=%d" % kstar})
         # refusal of hardened indexes from public-only data
         for i in [H, H + 1, 2 ** 32 - 1, rng.randrange(H, 2 ** 32)]:
             k = self.rand_scalar(rng, "rand")
